@@ -37,6 +37,15 @@ CLAIMED["C02"] = dict(
     technique="Lean 4: gate invariant over primitive steps + accounting refinement theorem; differential correspondence; exact-rational spec monitor on implementation traces",
 )
 
+CLAIMED["C03"] = dict(
+    text="Proof (Lean 4), for every machine set, fractions, oracle, every prior history with arbitrary (also backwards) clock values and every single-event call: "
+         "a returned BlockOutgoing for machine m implies replace-while-active, or blocked time (recomputed from the BlockingBegin/End reports and timestamps alone, "
+         "ongoing block counted to now, negative spans as 0) below allowed_blocked_microsec, or the blocked share below both the machine's and the framework's fraction. "
+         "Rests on the proved accounting refinement. The same decidable predicate runs as a monitor on the implementation's traces under a virtual clock.",
+    ref="5 (C03)",
+    technique="Lean 4: gate invariant over primitive steps + accounting refinement theorem; differential correspondence under a virtual clock; spec monitor on implementation traces",
+)
+
 PENDING = {}
 
 ALL = [f"C{i:02d}" for i in range(1, 21)]
